@@ -100,9 +100,17 @@ func (e *Engine) frameConfirmed(con *Contract, fn *ssa.Function) (bool, string) 
 		return false, "no body"
 	}
 	res := &effSet{keys: map[string]bool{}}
+	// this question must not disturb the effect analysis the VCs are generated from: only fn's own contract
+	// is set aside (a recursive call inside the body is still taken by its contract), and whatever the
+	// walk memoises is dropped again
+	saved := make(map[*ssa.Function]*effSet, len(e.effCache))
+	for k, v := range e.effCache {
+		saved[k] = v
+	}
 	e.skipOwnContract = fn
 	e.effectsOnce(fn, res)
 	e.skipOwnContract = nil
+	e.effCache = saved
 	if res.all {
 		return false, "the body has calls with unknown effects (" + res.why + ")"
 	}
@@ -146,6 +154,7 @@ func (e *Engine) frameConfirmedCached(con *Contract, fn *ssa.Function) (bool, st
 func (e *Engine) effectsOnce(fn *ssa.Function, res *effSet) {
 	so := e.effSo
 	if e.skipOwnContract == fn {
+		e.skipOwnContract = nil
 		goto body
 	}
 	if con := e.contractFor(fn); con != nil && con.HasPreserves {
